@@ -4,47 +4,48 @@ in the repository, i.e. with the repairs D19 and D23; model: Model/Skiplist.lean
 with the real code by checks/C17.py and checks/C18.py; specification: `Dict` of Model/MapSpec.lean,
 flavour `.sl`: ascending strcmp order).
 
-FULL STATEMENT (not proved in this generality):
-  theorem sl_refines_dict (ops : List Op) (h : ∀ op ∈ ops, op.isIter = false) :
-      results .sl (run ops) = results .sl (Dict.run .sl ops) ∧
-      trace .sl (run ops) = trace .sl (Dict.run .sl ops)
-for all sequences of put/get/rm/count/foreach (complete or abandoned)/notifier add/del/destroy,
-whatever levels `skiplist_level_generate` draws.
+MAIN THEOREM `sl_refines_dict` (proved, all levels): for ALL sequences of
+put/get/rm/count/foreach (complete or abandoned)/notifier add/del/destroy, all keys and values and
+WHATEVER LEVELS `skiplist_level_generate` draws (the `lvl=` of the op line), the results
+(get/rm/count/return codes up to the error number, traversals with their ORDER — ascending strcmp
+order — and completeness flag) and the notification trace (every callback of every operation, in
+order) of the skiplist model equal those of the sorted dictionary.
 
-PROVED: `sl_refines_dict_partial` — the same statement for all histories in which every `put` draws
-level 0 (`level0`: the interposed `random()` makes `skiplist_level_generate` return
-SKIPLIST_LEVEL_MIN; the list is then a sorted singly linked list, `list->level` ∈ {-1, 0}).  All
-keys, all values, all notifier registrations, any length.  It covers the whole of the code of every
-operation except the iterations of the level loops above level 0: search loop of
-lookup/put/rm, `skiplist_node_next`, splice, the takeover-and-repoint branch behind the header (the
-header's forward array is freed and replaced by the removed node's — arrays change owner even
-without iterators), level trimming down to -1 and back, `qb_map_foreach` through
-iter_create/iter_next/iter_free with its reference counting, notifier lists on entry nodes and on
-the header, `skiplist_destroy` (DELETED + FREE for every entry in ascending order, none for the
-header).  Proof: invariant `Inv` (Lemmas/SlInv.lean: level-0 chain from the header strictly sorted,
-every linked node allocated with refcount 1, forward arrays allocated and pairwise distinct, ids
-fresh), preserved by every operation, one lemma per operation (`put_new`, `put_replace`, `rm_hit` +
-`erase_inv`, `rm_miss`, `get_eq`, `foreach_eq`, `nadd_eq`, `ndel_eq`, `destroy_eq`).
-What is missing for the full statement: the invariant for the higher levels (each level's chain a
-sub-sequence of the one below; entries above a node's level NULL; the header losing its higher
-links in a takeover) and the loops `linkLevels/spliceLevels/copyLevels/trimLevels` beyond one
-iteration.  Multi-level histories are covered by the exact differential comparison of the model
-with the real code and by the finite facts `test_sl_multilevel_*` below.
+Proof.  Invariant `Inv` (Lemmas/SlmInv.lean): the level-0 chain from the header holds exactly the
+dictionary's entries, strictly sorted; every linked node is allocated with refcount = 1 + number of
+iterators parked on it; forward arrays are allocated and pairwise UNSHARED; entries of a forward
+array at and above the node's level are NULL; for every level there is a pointer chain from the
+header (`Levels`), each a sub-sequence of the one below, empty from `list->level + 1` on, holding
+only nodes that are tall enough; ids fresh.  It is preserved by every operation:
+* search loop of lookup/put/rm over all levels (`level_walk`, `search_levels`, `search_top`: either a
+  node carrying the key, or `update[l]` = the last node of the level-`l` chain below the key, for
+  every level; fuel never runs out);
+* `put` of an absent key (`put_new`): the loop "Drop @new_node into @list" in closed form
+  (`linkLevels_eq`), the node linked in behind `update[l]` on every level up to its own, list level
+  raised; of a present key (`put_replace`);
+* `rm` (`rm_hit`, `erase_inv`, `rm_miss`): splice loop, takeover-and-repoint copy loop and level
+  trimming in closed form (`spliceLevels_eq`, `copyLevels_eq`, `trimLevels_eq`); plain removal (node
+  destroyed with its forward array) and takeover behind the header (the header's array is freed,
+  the header continues with the removed node's array and LOSES its links above the removed node's
+  level — the higher chains become empty, which the invariant allows);
+* `qb_map_foreach` through iter_create/iter_next/iter_free with the reference counting
+  (`foreach_eq`), notifier lists on entry nodes and on the header (`nadd_eq`, `ndel_eq`),
+  `skiplist_destroy` (`destroy_eq`: DELETED + FREE for every entry in ascending order, none for the
+  header).
 -/
-import QbVerif.Lemmas.SlSim
+import QbVerif.Lemmas.SlmSim
 
 namespace QbVerif.Skiplist
 open QbVerif.Map
 set_option linter.unusedSimpArgs false
 
-/-- C17 for the skiplist, level-0 draws: results (get/rm/count/return codes up to the error code,
+/-- C17 for the skiplist: results (get/rm/count/return codes up to the error code,
     traversals with their ORDER — ascending strcmp order — and completeness flag) and the
     notification trace (every callback of every operation, in order) equal the dictionary's. -/
-theorem sl_refines_dict_partial (ops : List Op) (h : ∀ op ∈ ops, op.isIter = false)
-    (h0 : ∀ op ∈ ops, level0 op = true) :
+theorem sl_refines_dict (ops : List Op) (h : ∀ op ∈ ops, op.isIter = false) :
     results .sl (run ops) = results .sl (Dict.run .sl ops) ∧
     trace .sl (run ops) = trace .sl (Dict.run .sl ops) := by
-  obtain ⟨_, h2, h3⟩ := sim_run ops sim_create h h0
+  obtain ⟨_, h2, h3⟩ := sim_run ops sim_create rfl h
   refine ⟨h3, ?_⟩
   have := congrArg (List.map CTrace.seq) h2
   simpa [trace, Flavour.sl, List.map_map, Function.comp_def, run, Dict.run] using this
@@ -52,33 +53,37 @@ theorem sl_refines_dict_partial (ops : List Op) (h : ∀ op ∈ ops, op.isIter =
 /-- the abstraction behind it: after any such history the level-0 chain from the header holds
     exactly the dictionary's entries, strictly ascending; every linked node is referenced once;
     forward arrays are unshared; `count` is right; the model has not crashed -/
-theorem sl_abstraction_partial (ops : List Op) (h : ∀ op ∈ ops, op.isIter = false) (h0 : ∀ op ∈ ops, level0 op = true) :
+theorem sl_abstraction (ops : List Op) (h : ∀ op ∈ ops, op.isIter = false) :
     ∃ ids, Inv (run ops).1 ids (Dict.run .sl ops).1.entries (Dict.run .sl ops).1.globals :=
-  (sim_run ops sim_create h h0).1.inv
+  (sim_run ops sim_create rfl h).1.inv
 
-/-- no use-after-free, no double free, no divergence in iterator-free level-0 histories
+/-- no use-after-free, no double free, no divergence in iterator-free histories
     (`qb_map_foreach`'s internal iterator included) -/
-theorem sl_memory_safe_c17_partial (ops : List Op) (h : ∀ op ∈ ops, op.isIter = false)
-    (h0 : ∀ op ∈ ops, level0 op = true) : (run ops).1.crashed = false := by
-  obtain ⟨ids, hi⟩ := sl_abstraction_partial ops h h0
+theorem sl_memory_safe_c17 (ops : List Op) (h : ∀ op ∈ ops, op.isIter = false) : (run ops).1.crashed = false := by
+  obtain ⟨ids, hi⟩ := sl_abstraction ops h
   exact hi.ok
 
-/-- a complete traversal in any state satisfying the invariant: every present entry exactly once,
-    in ascending key order, nothing else, no notification, state unchanged -/
-theorem sl_complete_iteration_ascending {s ids es g} (h : Inv s ids es g) :
-    s.foreach 0 = .ok (s, ⟨[], .visited (es.map kv) true⟩) ∧
+/-- a complete traversal in any state satisfying the invariant (whatever iterators are open):
+    every present entry exactly once, in ascending key order, nothing else, no notification, and
+    the state afterwards satisfies the invariant for the same entries and iterators -/
+theorem sl_complete_iteration_ascending {s ids es g} (h : Inv s ids es g) (h0 : 0 ∉ s.iters.map (·.1)) :
+    (∃ s', s.foreach 0 = .ok (s', ⟨[], .visited (es.map kv) true⟩) ∧ Inv s' ids es g ∧ s'.iters = s.iters) ∧
     (es.map kv).Pairwise (fun a b => Key.lt a.1 b.1 = true) := by
-  refine ⟨by simpa [takeStop] using foreach_eq h 0, ?_⟩
-  rw [List.pairwise_map]
-  exact h.sorted
+  refine ⟨?_, ?_⟩
+  · obtain ⟨s', h1, h2, h3, _⟩ := foreach_eq h h0 0
+    exact ⟨s', by simpa [takeStop] using h1, h2, h3⟩
+  · rw [List.pairwise_map]
+    exact h.sorted
 
-/-- an abandoned traversal leaves the map as it was (the D19 clause) -/
-theorem sl_abandoned_iteration_leaves_map {s ids es g} (h : Inv s ids es g) (stop : Nat) :
-    ∃ out, s.foreach stop = .ok (s, out) := ⟨_, foreach_eq h stop⟩
+/-- an abandoned traversal leaves the map as it was (the D19 clause): same entries, same
+    notifiers, same open iterators, invariant intact -/
+theorem sl_abandoned_iteration_leaves_map {s ids es g} (h : Inv s ids es g) (h0 : 0 ∉ s.iters.map (·.1)) (stop : Nat) :
+    ∃ s' out, s.foreach stop = .ok (s', out) ∧ Inv s' ids es g ∧ s'.iters = s.iters := by
+  obtain ⟨s', h1, h2, h3, _⟩ := foreach_eq h h0 stop
+  exact ⟨s', _, h1, h2, h3⟩
 
-/-- non-vacuity of `sl_refines_dict_partial`'s hypotheses and a reading aid -/
-example : (∀ op ∈ [Op.put [0x61] 1 0, .foreach 1 none, .rm [0x61], .destroy], op.isIter = false) ∧
-    (∀ op ∈ [Op.put [0x61] 1 0, .foreach 1 none, .rm [0x61], .destroy], level0 op = true) := by decide
+/-- non-vacuity of `sl_refines_dict`'s hypothesis -/
+example : ∀ op ∈ [Op.put [0x61] 1 3, .foreach 1 none, .rm [0x61], .destroy], op.isIter = false := by decide
 
 example : Inv create [] [] [] := create_inv
 
